@@ -1050,7 +1050,7 @@ CIGAR_CH = "MIDNSHP=X"
 
 def write_bam(path, world, reads, build="hg19", sort=True, index=True, mapq=60,
               baseq=40, fmt="bam", extra_records=None, header_extra=None, lowq=None, dup=1, omit_main=False,
-              omit_neutral_contig=False):
+              omit_neutral_contig=False, chr_prefix=False):
     """`lowq` = {"seed", "frac", "kind": "base" | "mapq" | "both", "shape": "random" | "front" | "back"}:
     a fraction of the records gets a mapping quality below aldy's threshold or scattered base qualities of 5
     (unevenly along the file order with shape front / back).  `dup` = k: every read is written k times
@@ -1059,6 +1059,8 @@ def write_bam(path, world, reads, build="hg19", sort=True, index=True, mapq=60,
 
     shift = world["hg38_shift"] if build == "hg38" else 0
     cname = world["contig"]["name"]
+    if chr_prefix:
+        cname = "chr" + cname  # (the file names its contigs chr<name>, the database says <name>)
     clen = len(world["contig"]["seq"]) + shift
     sq = [{"SN": cname, "LN": clen}]
     if header_extra:
@@ -1069,7 +1071,7 @@ def write_bam(path, world, reads, build="hg19", sort=True, index=True, mapq=60,
     recs = []
     nc = world.get("neutral_contig")
     if nc:
-        sq.insert(1, {"SN": nc["name"], "LN": clen + abs(nc["offset"])})
+        sq.insert(1, {"SN": ("chr" if chr_prefix else "") + nc["name"], "LN": clen + abs(nc["offset"])})
         header = pysam.AlignmentHeader.from_dict(
             {"HD": {"VN": "1.6", "SO": "coordinate" if sort else "unsorted"}, "SQ": sq}
         )
